@@ -45,12 +45,21 @@ theorem rinv_step {s s' : State} (h : RInv s) (e : Ev) (hs : step .fixed s e = s
       simp only [step] at hs
       split at hs
       · simp at hs
-      · split at hs <;> simp at hs; subst hs; exact ⟨h1, h2, h3⟩
+      · split at hs
+        · split at hs <;> simp at hs
+          subst hs; exact ⟨h1, h2, h3⟩
+        · simp at hs; subst hs; exact ⟨h1, h2, h3⟩
     | some b =>
       simp only [step] at hs
       split at hs
       · split at hs <;> simp at hs; subst hs; exact ⟨h1, h2, h3⟩
       · split at hs <;> simp at hs; subst hs; exact ⟨h1, h2, h3⟩
+  | taintSet p l la ra ok =>
+    simp only [step] at hs; split at hs <;> simp at hs; subst hs; exact ⟨h1, h2, h3⟩
+  | taintExists p l r =>
+    cases r <;> simp only [step] at hs <;> split at hs <;> simp at hs <;> subst hs <;> exact ⟨h1, h2, h3⟩
+  | taintDelete p l la ra ok =>
+    simp only [step] at hs; split at hs <;> simp at hs; subst hs; exact ⟨h1, h2, h3⟩
   | setRes p ns k b lst rst ok =>
     simp only [step] at hs
     split at hs
